@@ -111,7 +111,9 @@ func (e expected) String() string {
 }
 
 // build writes the module and returns the outcome the documentation promises.
-func (c *MCase) build(dir string) (exp []expected, nontrivial bool, classes []string, err error) {
+// The module is written twice: to dir, and to other with CRLF line endings (a
+// checkout of the same code on another system, at another absolute path).
+func (c *MCase) build(dir, other string) (exp []expected, nontrivial bool, classes []string, err error) {
 	files := map[string][]string{
 		"p/shared.go":    {"package p", ""},
 		"p/c_linux.go":   {"package p", ""},
@@ -221,15 +223,21 @@ func (c *MCase) build(dir string) (exp []expected, nontrivial bool, classes []st
 			anySubset = true
 		}
 	}
-	if err := os.MkdirAll(filepath.Join(dir, "p"), 0o755); err != nil {
-		return nil, false, nil, err
-	}
-	if err := os.WriteFile(filepath.Join(dir, "go.mod"), []byte("module m\n\ngo 1.26.0\n"), 0o644); err != nil {
-		return nil, false, nil, err
-	}
-	for name, lines := range files {
-		if err := os.WriteFile(filepath.Join(dir, name), []byte(strings.Join(lines, "\n")+"\n"), 0o644); err != nil {
+	for _, d := range []string{dir, other} {
+		nl := "\n"
+		if d == other {
+			nl = "\r\n"
+		}
+		if err := os.MkdirAll(filepath.Join(d, "p"), 0o755); err != nil {
 			return nil, false, nil, err
+		}
+		if err := os.WriteFile(filepath.Join(d, "go.mod"), []byte("module m\n\ngo 1.26.0\n"), 0o644); err != nil {
+			return nil, false, nil, err
+		}
+		for name, lines := range files {
+			if err := os.WriteFile(filepath.Join(d, name), []byte(strings.Join(lines, nl)+nl), 0o644); err != nil {
+				return nil, false, nil, err
+			}
 		}
 	}
 	for k := range cls {
@@ -281,7 +289,11 @@ func evaluateMatrix(c *MCase, dir string) (msg, infra string, nontrivial bool, c
 		}
 	}
 	mod := filepath.Join(dir, "m")
-	exp, nontrivial, classes, err := c.build(mod)
+	// every second configuration is checked in another checkout of the module
+	// (other absolute path, CRLF line endings), as when the runs come from
+	// different systems
+	modB := filepath.Join(dir, "elsewhere", "deeper", "m")
+	exp, nontrivial, classes, err := c.build(mod, modB)
 	if err != nil {
 		return "", err.Error(), false, nil
 	}
@@ -307,8 +319,12 @@ func evaluateMatrix(c *MCase, dir string) (msg, infra string, nontrivial bool, c
 	// one run per configuration, in the binary format
 	var segs [][]byte
 	var runs []wireResult
-	for _, n := range c.Configs {
-		r, err := runTool(mod, env, []byte(cfgLine(n)), "-matrix", "-f", "binary", "./...")
+	for k, n := range c.Configs {
+		where := mod
+		if k%2 == 1 {
+			where = modB
+		}
+		r, err := runTool(where, env, []byte(cfgLine(n)), "-matrix", "-f", "binary", "./...")
 		if err != nil {
 			return "", err.Error(), false, nil
 		}
